@@ -158,6 +158,10 @@ def judge(case, res):
         g2, w2 = got.strip('\n'), want
         if nd.get('final', '').startswith(' \\\\'):
             g2, w2 = got.rstrip(' \n').lstrip('\n'), want.rstrip(' \n')     # the empty last line is trimmed by blank-line removal
+        if g2 != w2 and any(not l.strip() for l in w2.split('\n')):
+            # a row without visible output (an operator alone in the first column) leaves a line of blanks, which blank-line
+            # removal may take away: compare the visible lines
+            g2 = '\n'.join(l for l in g2.split('\n') if l.strip()); w2 = '\n'.join(l for l in w2.split('\n') if l.strip())
         if g2 != w2:
             fails.append('equation %r is rendered %r, the documented scheme gives %r' % (src[a:b], got, want))
             break
